@@ -26,7 +26,7 @@ func runC18(c *core.Ctx) {
 	pkg := "internal/maplike/skiplist"
 	c.Doc("compare-normal-form", 4, "advance iff node key < key; match iff equal; keys only through Compare")
 	c.Doc("level-loops", 4, "traversals go down to level 0 inclusive; Put splices 0..rank-1; Remove covers the node's levels")
-	c.Doc("loops-progress", 4, "no loop of the package can go round without changing anything")
+	c.Doc("loops-progress", 1, "no loop of the package can go round without changing anything")
 	c.Doc("traversal-effects", 2, "advancing moves node and next along the level; stopping keeps them and (insertion path) records the node; the result is next[0]")
 	c.Doc("splice-order", 1, "node.fingers[l] read before path[l].fingers[l] := node")
 	c.Doc("unlink", 1, "overwrite only where path[l].fingers[l] == v, with v.fingers[l] or nil")
